@@ -1,3 +1,362 @@
-use super::*; use crate::H; use elliptic_curve::hash2curve::ExpandMsg; use zkryptium::bbsplus::ciphersuites::BbsCiphersuite;
-pub fn c05<CS: BbsCiphersuite>(_h: &mut H) where CS::Expander: for<'a> ExpandMsg<'a> {}
-pub fn c06<CS: BbsCiphersuite>(_h: &mut H) where CS::Expander: for<'a> ExpandMsg<'a> {}
+// C05 (blind issuance + presentation completeness), C06 (blind soundness)
+use super::gen_proof::{rand_scalar_bytes, rand_tape};
+use super::*;
+use crate::ops::*;
+use crate::H;
+use bls12_381_plus::Scalar;
+use elliptic_curve::hash2curve::ExpandMsg;
+use zkryptium::bbsplus::ciphersuites::BbsCiphersuite;
+use zkryptium::bbsplus::keys::{BBSplusPublicKey, BBSplusSecretKey};
+use zkryptium::bbsplus::signature::BBSplusSignature;
+
+pub struct BlindRun {
+    pub cwp: Vec<u8>,
+    pub blind: [u8; 32],
+    pub sig: BBSplusSignature,
+}
+
+/// commit -> blind_sign -> verify_blind_sign, all expected to succeed
+pub fn honest_issue<CS: BbsCiphersuite>(
+    h: &mut H,
+    sk: &BBSplusSecretKey,
+    pk: &BBSplusPublicKey,
+    hdr: Option<&[u8]>,
+    msgs: &[Vec<u8>],
+    cmsgs: &[Vec<u8>],
+    inject: bool,
+) -> Option<BlindRun>
+where
+    CS::Expander: for<'a> ExpandMsg<'a>,
+{
+    let m = cmsgs.len();
+    h.stat(&format!("blind.L={}.M={}", msgs.len(), m));
+    let tape = if inject { rand_tape(h, m + 2) } else { vec![] };
+    let cm_arg: Option<&[Vec<u8>]> = if m == 0 && h.rng.chance(1, 2) { None } else { Some(cmsgs) };
+    let (c, draws) = commit::<CS>(h, cm_arg, tape);
+    let cid = h.last();
+    h.expect(draws.len() == m + 2, "C05.draws", "commit did not draw M + 2 scalars", &[cid]);
+    h.expect(c.is_ok(), "C05.commit", "commit failed", &[cid]);
+    let (c, bf) = c.ok()?;
+    let cwp = c.to_bytes();
+    h.expect(cwp.len() == 48 + 32 * (m + 2), "C05.commit_len", "commitment length is not 48 + 32*(M+2)", &[cid]);
+    let blind = bf.to_bytes();
+    let s = blindsign::<CS>(h, sk, pk, Some(&cwp), hdr, Some(msgs));
+    let sid = h.last();
+    h.expect(s.is_ok(), "C05.blind_sign", "blind_sign refused an honest commitment", &[cid, sid]);
+    let s = s.ok()?;
+    let sig = s.bbsPlusBlindSignature().clone();
+    let v = verifyblind::<CS>(h, pk, &sig, hdr, Some(msgs), Some(cmsgs), Some(&blind));
+    let vid = h.last();
+    h.expect(v.is_ok(), "C05.verify_blind", "honest blind signature does not verify", &[cid, sid, vid]);
+    Some(BlindRun { cwp, blind, sig })
+}
+
+pub fn honest_blind_proof<CS: BbsCiphersuite>(
+    h: &mut H,
+    pk: &BBSplusPublicKey,
+    run: &BlindRun,
+    hdr: Option<&[u8]>,
+    ph: Option<&[u8]>,
+    msgs: &[Vec<u8>],
+    cmsgs: &[Vec<u8>],
+    d: &[usize],
+    dc: &[usize],
+    inject: bool,
+) -> Option<Pok<CS>>
+where
+    CS::Expander: for<'a> ExpandMsg<'a>,
+{
+    let (l, m) = (msgs.len(), cmsgs.len());
+    let u = l + m + 1 - d.len() - dc.len();
+    let tape = if inject { rand_tape(h, 5 + u) } else { vec![] };
+    let sb = run.sig.to_bytes();
+    let (p, draws) = blindproofgen::<CS>(h, pk, &sb, hdr, ph, Some(msgs), Some(cmsgs), Some(d), Some(dc), Some(&run.blind), tape);
+    let gid = h.last();
+    h.expect(draws.len() == 5 + u, "C05.proof_draws", "blind_proof_gen did not draw 5 + U scalars", &[gid]);
+    h.expect(p.is_ok(), "C05.blind_proof_gen", "blind_proof_gen failed", &[gid]);
+    let p = p.ok()?;
+    h.expect(p.to_bytes().len() == 272 + 32 * u, "C05.proof_len", "blind proof length is not 272 + 32*U", &[gid]);
+    let dm = pick_msgs(msgs, d);
+    let dcm = pick_msgs(cmsgs, dc);
+    let v = blindproofverify::<CS>(h, pk, &p, hdr, ph, Some(l), Some(&dm), Some(&dcm), Some(d), Some(dc));
+    let vid = h.last();
+    h.expect(v.is_ok(), "C05.blind_proof_verify", "honest blind proof does not verify", &[gid, vid]);
+    Some(p)
+}
+
+pub fn c05<CS: BbsCiphersuite>(h: &mut H)
+where
+    CS::Expander: for<'a> ExpandMsg<'a>,
+{
+    let thorough = h.tier_thorough;
+    let (sk, pk) = rand_keypair::<CS>(h);
+    let maxn = if thorough { 4 } else { 2 };
+    let budget = if thorough { 6 } else { 3 };
+    for l in 0..=maxn {
+        for m in 0..=maxn {
+            let msgs = rand_msgs(h, l);
+            let cmsgs = rand_msgs(h, m);
+            let hdr = rand_header(h);
+            let run = match honest_issue::<CS>(h, &sk, &pk, hdr.as_deref(), &msgs, &cmsgs, (l + m) % 2 == 0) {
+                Some(r) => r,
+                None => continue,
+            };
+            if l + m <= budget {
+                for (a, d) in subsets(l).into_iter().enumerate() {
+                    for (b, dc) in subsets(m).into_iter().enumerate() {
+                        let ph = header_of_class(h, a + b);
+                        honest_blind_proof::<CS>(h, &pk, &run, hdr.as_deref(), ph.as_deref(), &msgs, &cmsgs, &d, &dc, (a + b) % 2 == 0);
+                    }
+                }
+            } else {
+                for _ in 0..2 {
+                    let d = rand_subset(h, l);
+                    let dc = rand_subset(h, m);
+                    let ph = rand_header(h);
+                    honest_blind_proof::<CS>(h, &pk, &run, hdr.as_deref(), ph.as_deref(), &msgs, &cmsgs, &d, &dc, true);
+                }
+            }
+        }
+    }
+    let big: &[(usize, usize)] = if thorough { &[(10, 5), (0, 33), (257, 1), (3, 40)] } else { &[(10, 5), (0, 33)] };
+    for &(l, m) in big {
+        let (sk, pk) = rand_keypair::<CS>(h);
+        let msgs = rand_msgs(h, l);
+        let cmsgs = rand_msgs(h, m);
+        let hdr = rand_header(h);
+        if let Some(run) = honest_issue::<CS>(h, &sk, &pk, hdr.as_deref(), &msgs, &cmsgs, true) {
+            let d = rand_subset(h, l);
+            let dc = rand_subset(h, m);
+            honest_blind_proof::<CS>(h, &pk, &run, hdr.as_deref(), None, &msgs, &cmsgs, &d, &dc, false);
+        }
+    }
+    // no commitment at all: blind_sign(None / empty) verifies with no committed messages and no blind
+    for l in [0usize, 1, 3] {
+        let msgs = rand_msgs(h, l);
+        let hdr = rand_header(h);
+        for cw in [None, Some(&[][..])] {
+            let s = blindsign::<CS>(h, &sk, &pk, cw, hdr.as_deref(), Some(&msgs));
+            let sid = h.last();
+            h.expect(s.is_ok(), "C05.no_commit_sign", "blind_sign without commitment failed", &[sid]);
+            if let Some(s) = s.ok() {
+                let sig = s.bbsPlusBlindSignature().clone();
+                let v = verifyblind::<CS>(h, &pk, &sig, hdr.as_deref(), Some(&msgs), None, None);
+                h.expect(v.is_ok(), "C05.no_commit_verify", "blind signature without commitment does not verify", &[sid, h.last()]);
+                let run = BlindRun { cwp: vec![], blind: [0u8; 32], sig };
+                let d = rand_subset(h, l);
+                let (p, _) = blindproofgen::<CS>(h, &pk, &run.sig.to_bytes(), hdr.as_deref(), None, Some(&msgs), None, Some(&d), None, None, vec![]);
+                let gid = h.last();
+                h.expect(p.is_ok(), "C05.no_commit_proof", "blind_proof_gen without commitment failed", &[gid]);
+                if let Some(p) = p.ok() {
+                    let dm = pick_msgs(&msgs, &d);
+                    let v = blindproofverify::<CS>(h, &pk, &p, hdr.as_deref(), None, Some(l), Some(&dm), None, Some(&d), None);
+                    h.expect(v.is_ok(), "C05.no_commit_proof_verify", "blind proof without commitment does not verify", &[gid, h.last()]);
+                }
+            }
+        }
+    }
+}
+
+fn flip(b: &[u8], bit: usize) -> Vec<u8> {
+    let mut v = b.to_vec();
+    v[bit / 8] ^= 0x80 >> (bit % 8);
+    v
+}
+
+pub fn c06<CS: BbsCiphersuite>(h: &mut H)
+where
+    CS::Expander: for<'a> ExpandMsg<'a>,
+{
+    let thorough = h.tier_thorough;
+    let nruns = if thorough { 6 } else { 2 };
+    for k in 0..nruns {
+        let (sk, pk) = rand_keypair::<CS>(h);
+        let (_sk2, pk2) = rand_keypair::<CS>(h);
+        let l = [2usize, 1, 3, 0, 4, 2][k % 6];
+        let m = [2usize, 3, 1, 2, 0, 4][k % 6];
+        let msgs = distinct_msgs(h, l);
+        let cmsgs = distinct_msgs(h, m);
+        let hdr = rand_header(h);
+        let run = match honest_issue::<CS>(h, &sk, &pk, hdr.as_deref(), &msgs, &cmsgs, true) {
+            Some(r) => r,
+            None => continue,
+        };
+        let refuse = |h: &mut H, class: &str, cwp: &[u8]| {
+            h.stat(&format!("C06.commit.{}", class));
+            let s = blindsign::<CS>(h, &sk, &pk, Some(cwp), hdr.as_deref(), Some(&msgs));
+            let id = h.last();
+            h.expect(!s.is_panic(), "C06.sign_panic", "blind_sign panicked on a bad commitment", &[id]);
+            h.expect(!s.is_ok(), &format!("C06.{}", class), "signer issued a blind signature for a bad commitment", &[id]);
+        };
+        // bit flips of the commitment-with-proof
+        let nbits = run.cwp.len() * 8;
+        let bits: Vec<usize> = if thorough {
+            (0..nbits).collect()
+        } else {
+            let mut b = vec![0, 1, 2, 383, 384, 385, 640, nbits - 1, nbits - 256];
+            for _ in 0..23 {
+                b.push(h.rng.below(nbits as u64) as usize);
+            }
+            b
+        };
+        for bit in bits {
+            refuse(h, "bitflip", &flip(&run.cwp, bit));
+        }
+        // proof made for other committed messages, spliced onto this commitment point
+        let other = distinct_msgs(h, m);
+        let otape = rand_tape(h, m + 2);
+        if let (Some((c2, _)), _) = {
+            let (o, d) = commit::<CS>(h, Some(&other), otape);
+            (o.ok(), d)
+        } {
+            let b2 = c2.to_bytes();
+            let mut spliced = run.cwp[..48].to_vec();
+            spliced.extend_from_slice(&b2[48..]);
+            refuse(h, "other_messages_proof", &spliced);
+            let mut spliced2 = b2[..48].to_vec();
+            spliced2.extend_from_slice(&run.cwp[48..]);
+            refuse(h, "other_commitment_point", &spliced2);
+        }
+        // truncated / extended by whole scalars
+        if m > 0 {
+            let mut t = run.cwp[..run.cwp.len() - 64].to_vec();
+            t.extend_from_slice(&run.cwp[run.cwp.len() - 32..]);
+            refuse(h, "truncate_scalar", &t);
+        }
+        let mut t = run.cwp[..run.cwp.len() - 32].to_vec();
+        t.extend_from_slice(&[0u8; 32]);
+        t.extend_from_slice(&run.cwp[run.cwp.len() - 32..]);
+        refuse(h, "extend_scalar", &t);
+        let mut t = run.cwp.clone();
+        t.extend_from_slice(&[0u8; 32]);
+        refuse(h, "append_scalar", &t);
+        refuse(h, "drop_challenge", &run.cwp[..run.cwp.len() - 32]);
+        for extra in [1usize, 31, 33] {
+            let mut t = run.cwp.clone();
+            t.extend(std::iter::repeat(0u8).take(extra));
+            refuse(h, "trailing_bytes", &t);
+        }
+        // +1 on each scalar
+        for off in (48..run.cwp.len()).step_by(32) {
+            let mut arr = [0u8; 32];
+            arr.copy_from_slice(&run.cwp[off..off + 32]);
+            let sc = Scalar::from_be_bytes(&arr).unwrap() + Scalar::ONE;
+            let mut t = run.cwp.clone();
+            t[off..off + 32].copy_from_slice(&sc.to_be_bytes());
+            refuse(h, "scalar_plus_1", &t);
+        }
+
+        // verify_blind_sign binding
+        let vreject = |h: &mut H, class: &str, p: &BBSplusPublicKey, hd: Option<&[u8]>, ms: &[Vec<u8>], cms: &[Vec<u8>], bl: Option<&[u8; 32]>| {
+            h.stat(&format!("C06.vbs.{}", class));
+            let v = verifyblind::<CS>(h, p, &run.sig, hd, Some(ms), Some(cms), bl);
+            let id = h.last();
+            h.expect(!v.is_ok(), &format!("C06.vbs_{}", class), "verify_blind_sign accepted altered inputs", &[id]);
+        };
+        for i in 0..m {
+            let mut c = cmsgs.clone();
+            c[i].push(1);
+            vreject(h, "cmsg_edit", &pk, hdr.as_deref(), &msgs, &c, Some(&run.blind));
+            let mut c = cmsgs.clone();
+            c.remove(i);
+            vreject(h, "cmsg_delete", &pk, hdr.as_deref(), &msgs, &c, Some(&run.blind));
+        }
+        for i in 0..l {
+            let mut c = msgs.clone();
+            c[i].push(1);
+            vreject(h, "msg_edit", &pk, hdr.as_deref(), &c, &cmsgs, Some(&run.blind));
+        }
+        if l > 0 && m > 0 {
+            // move a message across the signer/committed boundary
+            let mut a = msgs.clone();
+            let mut b = cmsgs.clone();
+            let x = a.pop().unwrap();
+            b.insert(0, x);
+            vreject(h, "boundary_move", &pk, hdr.as_deref(), &a, &b, Some(&run.blind));
+        }
+        let mut bl = run.blind;
+        bl[31] ^= 1;
+        vreject(h, "blind_edit", &pk, hdr.as_deref(), &msgs, &cmsgs, Some(&bl));
+        vreject(h, "blind_absent", &pk, hdr.as_deref(), &msgs, &cmsgs, None);
+        let mut h1 = hdr.clone().unwrap_or_default();
+        h1.push(9);
+        vreject(h, "hdr", &pk, Some(&h1), &msgs, &cmsgs, Some(&run.blind));
+        vreject(h, "other_pk", &pk2, hdr.as_deref(), &msgs, &cmsgs, Some(&run.blind));
+        // plain verifier on a blind signature
+        let v = verify::<CS>(h, &pk, &run.sig, hdr.as_deref(), Some(&[msgs.clone(), cmsgs.clone()].concat()));
+        h.expect(!v.is_ok(), "C06.cross_iface", "blind signature verifies through the plain interface", &[h.last()]);
+
+        // blind proof binding
+        let d = rand_subset(h, l);
+        let dc = rand_subset(h, m);
+        let ph = rand_header(h);
+        let p = match honest_blind_proof::<CS>(h, &pk, &run, hdr.as_deref(), ph.as_deref(), &msgs, &cmsgs, &d, &dc, true) {
+            Some(p) => p,
+            None => continue,
+        };
+        let pb = p.to_bytes();
+        let dm = pick_msgs(&msgs, &d);
+        let dcm = pick_msgs(&cmsgs, &dc);
+        let preject = |h: &mut H, class: &str, p: &BBSplusPublicKey, pbytes: &[u8], hd: Option<&[u8]>, phh: Option<&[u8]>, lv: Option<usize>, a: &[Vec<u8>], b: &[Vec<u8>], ia: &[usize], ib: &[usize]| {
+            h.stat(&format!("C06.bpv.{}", class));
+            let dd = dec(h, "proof", pbytes);
+            if !dd.is_ok() {
+                return;
+            }
+            if let Ok(pp) = Pok::<CS>::from_bytes(pbytes) {
+                let v = blindproofverify::<CS>(h, p, &pp, hd, phh, lv, Some(a), Some(b), Some(ia), Some(ib));
+                let id = h.last();
+                h.expect(!v.is_panic(), "C06.bpv_panic", "blind_proof_verify panicked", &[id]);
+                h.expect(!v.is_ok(), &format!("C06.bpv_{}", class), "blind_proof_verify accepted altered inputs", &[id]);
+            }
+        };
+        for lv in [l + 1, l.wrapping_sub(1), l + 2, usize::MAX, usize::MAX - 1, 1 << 40] {
+            if lv != l {
+                preject(h, "L", &pk, &pb, hdr.as_deref(), ph.as_deref(), Some(lv), &dm, &dcm, &d, &dc);
+            }
+        }
+        if l != 0 {
+            preject(h, "L_absent", &pk, &pb, hdr.as_deref(), ph.as_deref(), None, &dm, &dcm, &d, &dc);
+        }
+        for i in 0..dm.len() {
+            let mut x = dm.clone();
+            x[i].push(1);
+            preject(h, "dmsg", &pk, &pb, hdr.as_deref(), ph.as_deref(), Some(l), &x, &dcm, &d, &dc);
+        }
+        for i in 0..dcm.len() {
+            let mut x = dcm.clone();
+            x[i].push(1);
+            preject(h, "dcmsg", &pk, &pb, hdr.as_deref(), ph.as_deref(), Some(l), &dm, &x, &d, &dc);
+        }
+        if !dc.is_empty() {
+            let mut x = dc.clone();
+            let last = x.len() - 1;
+            x[last] += 1;
+            preject(h, "cidx", &pk, &pb, hdr.as_deref(), ph.as_deref(), Some(l), &dm, &dcm, &d, &x);
+            let mut y = dc.clone();
+            y[0] = usize::MAX;
+            preject(h, "cidx_max", &pk, &pb, hdr.as_deref(), ph.as_deref(), Some(l), &dm, &dcm, &d, &y);
+        }
+        let mut h1 = hdr.clone().unwrap_or_default();
+        h1.push(1);
+        preject(h, "hdr", &pk, &pb, Some(&h1), ph.as_deref(), Some(l), &dm, &dcm, &d, &dc);
+        let mut p1 = ph.clone().unwrap_or_default();
+        p1.push(1);
+        preject(h, "ph", &pk, &pb, hdr.as_deref(), Some(&p1), Some(l), &dm, &dcm, &d, &dc);
+        preject(h, "other_pk", &pk2, &pb, hdr.as_deref(), ph.as_deref(), Some(l), &dm, &dcm, &d, &dc);
+        let nb = pb.len() * 8;
+        let nflips = if thorough { 256 } else { 24 };
+        for _ in 0..nflips {
+            let bit = h.rng.below(nb as u64) as usize;
+            preject(h, "bitflip", &pk, &flip(&pb, bit), hdr.as_deref(), ph.as_deref(), Some(l), &dm, &dcm, &d, &dc);
+        }
+        // plain verifier on a blind proof
+        if let Ok(pp) = Pok::<CS>::from_bytes(&pb) {
+            let mut ia = d.clone();
+            ia.extend(dc.iter().map(|j| j + l + 1));
+            let v = proofverify::<CS>(h, &pk, &pp, hdr.as_deref(), ph.as_deref(), Some(&[dm.clone(), dcm.clone()].concat()), Some(&ia));
+            h.expect(!v.is_ok(), "C06.proof_cross_iface", "blind proof verifies through the plain interface", &[h.last()]);
+        }
+    }
+    let _ = rand_scalar_bytes(h);
+}
